@@ -189,6 +189,9 @@ def solve(assertions, timeout_ms=600000, seed=0):
     t = time.time()
     r = s.check()
     dt = time.time() - t
+    from vf import crosscheck
+
+    crosscheck.compare("grammar query", assertions, str(r), timeout_s=600)
     return str(r), (s.model() if str(r) == "sat" else None), dt, s
 
 
